@@ -1,48 +1,49 @@
 (* C08 — Resource limits only abort a render, never alter its output; success is monotone.  Property theorems only.
    Statements are about Limits.run_prog v Strict for every variant v with is_repaired v (model of the code after
-   .work/fixes/C06-loop-carry.patch, C08-zero-limits.patch, C07-namespace-rollback.patch; v_item - one render-for context
-   or one per item - left free; the correspondence run uses v = Limits.repaired), over all five limits at once
-   (lim_le: pointwise order, None = not configured = top).  Mode.STRICT: in WARN/LAX mode an error is dropped per
-   top-level node, so a limit does alter the output there (by design); what carries over to those modes is
-   C08_mode_agreement. *)
+   .work/fixes/C06-loop-carry.patch, C08-zero-limits.patch, C07-namespace-rollback.patch, dec4c86 and
+   C07-namespace-across-block-super.patch; v_item - one render-for context or one per item - left free; the correspondence
+   run uses v = Limits.repaired), over all five limits at once (lim_le: pointwise order, None = not configured = top),
+   for single templates (chain = []) and chains of templates with overridden blocks and block.super (chain = d0 :: loaded).
+   Mode.STRICT: in WARN/LAX mode an error is dropped per top-level node, so a limit does alter the output there (by
+   design); what carries over to those modes is C08_mode_agreement. *)
 From LiquidVerif Require Import Prelude PyPrims Limits Limits_Proofs Limits_Sim_Proofs.
 Local Open Scope Z_scope.
 
 (* the simulation: with pointwise larger limits b, a render that completes under a completes under b in the
    identical final state (output, namespaces, logs); a render that fails under a fails identically under b or
    failed with the class of a limit on which a and b differ *)
-Theorem C08_simulation : forall v a b, is_repaired v -> lim_le a b -> forall main sizes,
-  match run_prog v Strict a main sizes with
-  | LOk s => run_prog v Strict b main sizes = LOk s
-  | LErr e s => run_prog v Strict b main sizes = LErr e s \/ blame a b e
-  | LFuel => run_prog v Strict b main sizes = LFuel
+Theorem C08_simulation : forall v a b, is_repaired v -> lim_le a b -> forall chain main glob sizes,
+  match run_prog v Strict a chain main glob sizes with
+  | LOk s => run_prog v Strict b chain main glob sizes = LOk s
+  | LErr e s => run_prog v Strict b chain main glob sizes = LErr e s \/ blame a b e
+  | LFuel => run_prog v Strict b chain main glob sizes = LFuel
   end.
 Proof. exact sim_run. Qed.
 Print Assumptions C08_simulation.
 
 (* monotone: success under a limit carries over, with the same output, to any larger value of any of the limits *)
-Theorem C08_monotone : forall v, is_repaired v -> forall a b main sizes s,
-  lim_le a b -> run_prog v Strict a main sizes = LOk s -> run_prog v Strict b main sizes = LOk s.
+Theorem C08_monotone : forall v, is_repaired v -> forall a b chain main glob sizes s,
+  lim_le a b -> run_prog v Strict a chain main glob sizes = LOk s -> run_prog v Strict b chain main glob sizes = LOk s.
 Proof. exact run_monotone. Qed.
 Print Assumptions C08_monotone.
 
 (* abort only: any two configurations of the limits (comparable or not, including no limits at all) under which
    the render completes give the same result *)
-Theorem C08_abort_only : forall v, is_repaired v -> forall a b main sizes s s',
-  run_prog v Strict a main sizes = LOk s -> run_prog v Strict b main sizes = LOk s' -> s = s'.
+Theorem C08_abort_only : forall v, is_repaired v -> forall a b chain main glob sizes s s',
+  run_prog v Strict a chain main glob sizes = LOk s -> run_prog v Strict b chain main glob sizes = LOk s' -> s = s'.
 Proof. exact run_abort_only. Qed.
 Print Assumptions C08_abort_only.
 
 (* ... and a failure under limits a of a render that completes under some limits b is a ResourceLimitError
    (LoopIterationLimitError, OutputStreamLimitError, LocalNamespaceLimitError, ContextDepthError, BlockNestingError) *)
-Theorem C08_error_class : forall v, is_repaired v -> forall a b main sizes e se s,
-  run_prog v Strict a main sizes = LErr e se -> run_prog v Strict b main sizes = LOk s -> is_limit e = true.
+Theorem C08_error_class : forall v, is_repaired v -> forall a b chain main glob sizes e se s,
+  run_prog v Strict a chain main glob sizes = LErr e se -> run_prog v Strict b chain main glob sizes = LOk s -> is_limit e = true.
 Proof. exact run_error_class. Qed.
 Print Assumptions C08_error_class.
 
 (* sharper: for comparable limits the error is that of a limit that was actually raised *)
-Theorem C08_error_blame : forall v, is_repaired v -> forall a b main sizes e se s,
-  lim_le a b -> run_prog v Strict a main sizes = LErr e se -> run_prog v Strict b main sizes = LOk s -> blame a b e.
+Theorem C08_error_blame : forall v, is_repaired v -> forall a b chain main glob sizes e se s,
+  lim_le a b -> run_prog v Strict a chain main glob sizes = LErr e se -> run_prog v Strict b chain main glob sizes = LOk s -> blame a b e.
 Proof. exact run_error_blame. Qed.
 Print Assumptions C08_error_blame.
 
@@ -50,8 +51,8 @@ Print Assumptions C08_error_blame.
    with the identical result in WARN and LAX mode under the same limits (for every variant of the code).  With
    C08_abort_only: whenever the strict render under the limits completes, the lax render under the limits returns
    the unlimited output. *)
-Theorem C08_mode_agreement : forall v md lim main sizes s,
-  run_prog v Strict lim main sizes = LOk s -> run_prog v md lim main sizes = LOk s.
+Theorem C08_mode_agreement : forall v md lim chain main glob sizes s,
+  run_prog v Strict lim chain main glob sizes = LOk s -> run_prog v md lim chain main glob sizes = LOk s.
 Proof. exact run_mode_agreement. Qed.
 Print Assumptions C08_mode_agreement.
 
@@ -62,11 +63,11 @@ Definition loop_lim (L : N) : limits := {| l_loop := Some L; l_out := None; l_ns
 Definition ns_lim (M : Z) : limits := {| l_loop := None; l_out := None; l_ns := Some M; l_depth := 30; l_nest := 30 |}.
 Theorem C08_unrepaired_zero_refuted :
   lim_le (loop_lim 0) (loop_lim 1) /\
-  (exists s, run_prog unrepaired Strict (loop_lim 0) [For 2 [Text [120%N]]] [] = LOk s) /\
-  (exists se, run_prog unrepaired Strict (loop_lim 1) [For 2 [Text [120%N]]] [] = LErr XLoop se) /\
+  (exists s, run_prog unrepaired Strict (loop_lim 0) [] [For 2 [Text [120%N]]] [] [] = LOk s) /\
+  (exists se, run_prog unrepaired Strict (loop_lim 1) [] [For 2 [Text [120%N]]] [] [] = LErr XLoop se) /\
   lim_le (ns_lim 0) (ns_lim 1) /\
-  (exists s, run_prog unrepaired Strict (ns_lim 0) [Assign 0 [97%N]] [42] = LOk s) /\
-  (exists se, run_prog unrepaired Strict (ns_lim 1) [Assign 0 [97%N]] [42] = LErr XNamespace se).
+  (exists s, run_prog unrepaired Strict (ns_lim 0) [] [Assign 0 [97%N]] [] [42] = LOk s) /\
+  (exists se, run_prog unrepaired Strict (ns_lim 1) [] [Assign 0 [97%N]] [] [42] = LErr XNamespace se).
 Proof.
   repeat split; try (vm_compute; intro; discriminate); try (eexists; vm_compute; reflexivity).
   all: vm_compute; lia.
@@ -78,14 +79,29 @@ Print Assumptions C08_unrepaired_zero_refuted.
 Definition prog : list node := [Assign 0 [97%N]; For 2 [Include [Capture 1 [Text [120%N; 121%N]]; Echo 1]]].
 Definition cfg (lo : option N) (ou ns : option Z) (d n : Z) : limits := {| l_loop := lo; l_out := ou; l_ns := ns; l_depth := d; l_nest := n |}.
 Example C08_nonvacuous :
-  (exists s, run_prog repaired Strict (cfg (Some 2%N) (Some 4) (Some 100) 7 1) prog [50; 50; 50] = LOk s /\ buf_text (s_buf s) = [120; 121; 120; 121]%N) /\
-  (exists se, run_prog repaired Strict (cfg (Some 1%N) (Some 4) (Some 100) 7 1) prog [50; 50; 50] = LErr XLoop se) /\
-  (exists se, run_prog repaired Strict (cfg (Some 2%N) (Some 3) (Some 100) 7 1) prog [50; 50; 50] = LErr XOutput se) /\
-  (exists se, run_prog repaired Strict (cfg (Some 2%N) (Some 4) (Some 99) 7 1) prog [50; 50; 50] = LErr XNamespace se) /\
-  (exists se, run_prog repaired Strict (cfg (Some 2%N) (Some 4) (Some 100) 6 1) prog [50; 50; 50] = LErr XDepth se) /\
-  (exists se, run_prog repaired Strict (cfg (Some 2%N) (Some 4) (Some 100) 7 0) prog [50; 50; 50] = LErr XNesting se) /\
-  (exists s, run_prog repaired Lax (cfg (Some 2%N) (Some 3) (Some 100) 7 1) prog [50; 50; 50] = LOk s /\ buf_text (s_buf s) = [120; 121]%N).
+  (exists s, run_prog repaired Strict (cfg (Some 2%N) (Some 4) (Some 100) 7 1) [] prog [] [50; 50; 50] = LOk s /\ buf_text (s_buf s) = [120; 121; 120; 121]%N) /\
+  (exists se, run_prog repaired Strict (cfg (Some 1%N) (Some 4) (Some 100) 7 1) [] prog [] [50; 50; 50] = LErr XLoop se) /\
+  (exists se, run_prog repaired Strict (cfg (Some 2%N) (Some 3) (Some 100) 7 1) [] prog [] [50; 50; 50] = LErr XOutput se) /\
+  (exists se, run_prog repaired Strict (cfg (Some 2%N) (Some 4) (Some 99) 7 1) [] prog [] [50; 50; 50] = LErr XNamespace se) /\
+  (exists se, run_prog repaired Strict (cfg (Some 2%N) (Some 4) (Some 100) 6 1) [] prog [] [50; 50; 50] = LErr XDepth se) /\
+  (exists se, run_prog repaired Strict (cfg (Some 2%N) (Some 4) (Some 100) 7 0) [] prog [] [50; 50; 50] = LErr XNesting se) /\
+  (exists s, run_prog repaired Lax (cfg (Some 2%N) (Some 3) (Some 100) 7 1) [] prog [] [50; 50; 50] = LOk s /\ buf_text (s_buf s) = [120; 121]%N).
 Proof.
   split; [eexists; split; vm_compute; reflexivity|]. repeat split; try (eexists; vm_compute; reflexivity).
   eexists; split; vm_compute; reflexivity.
+Qed.
+
+(* the same over a chain of two templates (child: {% block b %}{% assign v0 %}{% for (1..2) %}{{ block.super }}{% endfor %}{% endblock %},
+   base: {% block b %}{% capture v1 %}xy{% endcapture %}{{ v1 }}{% endblock %}; nesting depths 2 and 2): the scope of the base
+   template's nodes is two deep, the parent block one more; each too-small limit aborts with its own class *)
+Definition cprog : list node := [Block [Assign 0 [97%N]; For 2 [Super [Capture 1 [Text [120%N; 121%N]]; Echo 1]]]].
+Example C08_nonvacuous_chain :
+  (exists s, run_prog repaired Strict (cfg (Some 2%N) (Some 4) (Some 100) 6 2) [2; 2] cprog [] [50; 50; 50] = LOk s /\ buf_text (s_buf s) = [120; 121; 120; 121]%N) /\
+  (exists se, run_prog repaired Strict (cfg (Some 1%N) (Some 4) (Some 100) 6 2) [2; 2] cprog [] [50; 50; 50] = LErr XLoop se) /\
+  (exists se, run_prog repaired Strict (cfg (Some 2%N) (Some 3) (Some 100) 6 2) [2; 2] cprog [] [50; 50; 50] = LErr XOutput se) /\
+  (exists se, run_prog repaired Strict (cfg (Some 2%N) (Some 4) (Some 99) 6 2) [2; 2] cprog [] [50; 50; 50] = LErr XNamespace se) /\
+  (exists se, run_prog repaired Strict (cfg (Some 2%N) (Some 4) (Some 100) 5 2) [2; 2] cprog [] [50; 50; 50] = LErr XDepth se) /\
+  (exists se, run_prog repaired Strict (cfg (Some 2%N) (Some 4) (Some 100) 6 1) [2; 2] cprog [] [50; 50; 50] = LErr XNesting se).
+Proof.
+  split; [eexists; split; vm_compute; reflexivity|]. repeat split; eexists; vm_compute; reflexivity.
 Qed.
